@@ -37,9 +37,12 @@ def _install_mutant_hook():
             self.path = path
 
         def get_filename(self, fullname):
-            return self.path
+            # a name that does not exist on disk: inspect/linecache then ask this loader for the (mutated) source
+            return self.path + '#mutant'
 
         def get_data(self, path):
+            if path.endswith('#mutant'):
+                path = path[: -len('#mutant')]
             src = open(path, 'rb').read()
             if path == self.path:
                 text = src.decode()
